@@ -235,6 +235,8 @@ theorem topUpd_setLjoined (s : State) : TopUpd s (setLjoined s) := ⟨rfl, rfl, 
 @[simp] theorem ownInv_raiseIf (s : State) (f : Flag) (b : Bool) : OwnInv (raiseIf s f b) ↔ OwnInv s :=
   ownInv_top (topUpd_raiseIf s f b)
 @[simp] theorem ownInv_setAlk (s : State) (l : List Nat) : OwnInv (setAlk s l) ↔ OwnInv s := ownInv_top (topUpd_setAlk s l)
+@[simp] theorem ownInv_setAlkT (s : State) (t : Tid) (l : List Nat) : OwnInv (setAlkT s t l) ↔ OwnInv s := by
+  unfold setAlkT; split <;> simp
 @[simp] theorem ownInv_setN (s : State) (n : Nat) : OwnInv (setN s n) ↔ OwnInv s := ownInv_top (topUpd_setN s n)
 @[simp] theorem ownInv_setAapi (s : State) (a : Api) : OwnInv (setAapi s a) ↔ OwnInv s := ownInv_top (topUpd_setAapi s a)
 @[simp] theorem ownInv_setLisDown (s : State) : OwnInv (setLisDown s) ↔ OwnInv s := ownInv_top (topUpd_setLisDown s)
@@ -245,7 +247,7 @@ macro "own_fin" : tactic => `(tactic| (
   try simp only [ownInv_setC, ownInv_setI, ownInv_setO, ownInv_touch, ownInv_incRef, ownInv_decRef,
     ownInv_signalU, ownInv_signalD, ownInv_upd_st, ownInv_upd_pipe, ownInv_upd_linked, ownInv_upd_alive,
     ownInv_upd_sock, ownInv_upd_gone, ownInv_upd_ijoined, ownInv_upd_ojoined, ownInv_upd_fresh, ownInv_raise, ownInv_raiseIf, ownInv_setAlk,
-    ownInv_setN, ownInv_setAapi, ownInv_setLisDown, ownInv_setLjoined]
+    ownInv_setAlkT, ownInv_setN, ownInv_setAapi, ownInv_setLisDown, ownInv_setLjoined]
   first
   | assumption
   | exact ownInv_doUnlock _ _ _ ‹OwnInv _›
@@ -356,7 +358,11 @@ theorem ownInv_step {s s' : State} (h : OwnInv s) (hs : Step s s') : OwnInv s' :
   obtain ⟨t, l, hm⟩ := hs
   cases t with
   | app => exact ownInv_caller h hm
-  | lis => exact ownInv_caller h hm
+  | lis =>
+    simp only [succ] at hm
+    split at hm
+    · exact ownInv_caller h hm
+    · simp at hm
   | inp c => exact ownInv_inp h hm
   | out c => exact ownInv_out h hm
 
